@@ -297,6 +297,13 @@ class MailboxData(MailboxDataInterface[Message]):
 
     async def move(self, uid: int, destination: MailboxData, *,
                    recent: bool = False) -> int | None:
+        if destination is self:
+            # the file cannot be renamed onto itself under a second UID (and
+            # the write lock is not reentrant): copy, then remove the original
+            dest_uid = await self.copy(uid, destination, recent=recent)
+            if dest_uid is not None:
+                await self.delete([uid])
+            return dest_uid
         maildir = self._maildir
         dest_maildir = destination._maildir
         async with UidList.with_read(self._path) as uidl:
